@@ -33,7 +33,7 @@ RULE = ('tables 1..5 x 1..5, non-square and asymmetric with probability > 0.8 (v
         'vectors), layout recipes giving CSR and CSC start layouts with sorted and unsorted indices, x axis x inplace x '
         '{transform with a function from a finite family: element-wise (x+1, 2x, -x, zero the small ones, zero all), vector-wise '
         '(v/v.sum(), reversed, cumsum, argsort, times the number of values, minus the minimum, a broadcast scalar), using the id, '
-        'using the metadata, a wrong-length result; rankdata with the five tie methods; norm; pa (incl. negative values, magnitudes down to 5e-324 and norm-then-pa on vectors '
+        'using the metadata, a wrong-length result; rankdata with the five tie methods; norm (also vectors whose total is 1e-20, 1e-300 or a few denormals, next to ordinary vectors); pa (incl. negative values, magnitudes down to 5e-324 and norm-then-pa on vectors '
         'as uneven as 1 : 3e11, travelling as opaque non-zero codes); an element-wise function '
         'along both axes; _normalize_table (-r/-p/none/both) called directly and through the real click command `biom normalize-table` on a JSON / HDF5 file (in process, output file read back)}; the arrays handed to the kernel and every call are recorded and '
         'replayed through the kernel-level model, and for in-place calls the table\'s own arrays through the representation-'
@@ -51,11 +51,14 @@ TRUSTED = ['hand-written model coq/Model/Transform.v tied to biom/table.py:3063-
 from . import regen as _regen
 regenerate = _regen.hook(TRUSTED, ['transform'])   # py2v: regenerate coq/Gen/* from the source first
 ASSUMPTIONS = ['functions are deterministic and return finite values (no NaN), -0.0 counts as zero as in scipy',
-               'norm: non-negative dyadic values (multiples of 1/64), so every sum is exact in binary64 and positive when something is stored',
+               'norm: non-negative values, each vector holding small integer multiples of one power of two (1/64 for ordinary vectors; 2^-53 .. 2^-1074 for the tiny ones), so every sum is exact in binary64 and positive when something is stored',
                'an in-place transform whose function returns a wrong-length array is outside the model (the receiver may be half transformed)']
 
 AX = {'observation': 0, 'sample': 1}
 RANK_METHODS = ['average', 'min', 'max', 'dense', 'ordinal']
+# powers of two (1.4e-20, 6.8e-21, 7.5e-301, 8.7e-311 (denormal), 5e-324 (smallest denormal), 1.4e-17, 1.1e-16):
+# small integer multiples of one of them add up exactly in binary64, like the multiples of 1/64 elsewhere
+TINY_BASES = [2.0 ** -66, 2.0 ** -67, 2.0 ** -997, 2.0 ** -1030, 2.0 ** -1074, 2.0 ** -56, 2.0 ** -53]
 TINY = [1e-9, -1e-9, 1.5e-9, 1e-12, -3e-12, 5e-324, -5e-324, 2.5e-300, 1e-8, 9e-9]
 
 
@@ -366,12 +369,35 @@ def _cs_tree(a, cd):
     return [major, minor, a['indptr'], a['indices'], [cd.val(v) for v in a['data']]]
 
 
+def _scaled_table(cd, content, axis):
+    """norm divides every vector of [axis] by its own total, so a vector may be multiplied by a power
+    of two without changing the exact quotients: every vector is scaled to integers by its own
+    power of two (ordinary dyadic values, 1e-20, 1e-300 and denormals alike).  The entries of one
+    vector must then fit the wire's 62-bit integers, i.e. have comparable exponents."""
+    rows = [[float(v) for v in row] for row in content['mat']]
+    nr, nc = len(content['oids']), len(content['sids'])
+    out = [[0] * nc for _ in range(nr)]
+    vecs = [[(i, j) for j in range(nc)] for i in range(nr)] if axis == 'observation' else \
+        [[(i, j) for i in range(nr)] for j in range(nc)]
+    for cells in vecs:
+        fr = [rows[i][j].as_integer_ratio() for i, j in cells] if nr and nc else []
+        den = max([d for _, d in fr] + [1])
+        for (i, j), (num, d) in zip(cells, fr):
+            k = num * (den // d)
+            if abs(k) >= 2 ** 58:
+                raise ValueError('vector mixes magnitudes too far apart for the wire: %r' % [rows[a][b] for a, b in cells])
+            out[i][j] = k
+    tb = cd.table(dict(content, mat=[[0.0] * nc for _ in range(nr)]))
+    tb[2] = out
+    return tb
+
+
 def encode(c):
     st = _recorded(c)
     if st.get('crash'):
         return [3, 0, [0], [], [], [], [], []]
     cd = _coder(c, _uses_bits(c))
-    tb = cd.table(_content(c))
+    tb = cd.table(_content(c)) if _uses_bits(c) else _scaled_table(cd, _content(c), c['axis'])
     k = c['kind']
     if k == 'axis_indep':
         subs = []
@@ -674,6 +700,19 @@ def gen_case(rng, kind=None, spec=None):
         c['via'] = rng.choice(['function', 'function', 'function', 'cli_json', 'cli_hdf5'])
         if c['via'] != 'function':
             _cli_md(spec)
+    if kind == 'norm' or (kind == 'normalize' and c['rel']):
+        # "every vector with a positive total sums to 1", however small the total: some vectors of the
+        # normalised axis hold only tiny magnitudes (1e-20, 1e-300, denormals), next to ordinary ones
+        if rng.random() < 0.4:
+            nr, nc = len(spec['oids']), len(spec['sids'])
+            n_ax = nr if c['axis'] == 'observation' else nc
+            for v in range(n_ax):
+                if rng.random() < 0.5:
+                    base = rng.choice(TINY_BASES)
+                    for w in range(nc if c['axis'] == 'observation' else nr):
+                        i, j = (v, w) if c['axis'] == 'observation' else (w, v)
+                        if spec['mat'][i][j] != 0:
+                            spec['mat'][i][j] = base * rng.choice([1, 2, 3, 5, 8])
     if kind == 'pa' or (kind == 'normalize' and not c['rel']):
         # presence means "non-zero", however small: tiny magnitudes, denormals, negative tiny values,
         # and relative abundances of very uneven vectors (norm, then pa)
